@@ -21,7 +21,7 @@ RULE = ('(i) value level: pairs (v1, v2) of JSON-like values / parameter objects
         'argument of a parameter object) of one task of a generated pipeline is changed, or an input is rewired to another computation; every task in '
         '{U} U descendants(U) must move and no other task may. (iii) over everything observed in a case the map location -> computation descriptor must be '
         'a function. non-trivial = pair whose frozen-scheme texts differ in <= 3 characters or graph case with >=1 descendant; distinct = hash of the pair / case')
-REQUIRED = ['long_value_pairs', 'value_pairs', 'near_pairs', 'graph_cases', 'moved_tasks_checked', 'unmoved_tasks_checked', 'object_arg_mutations', 'rewirings',
+REQUIRED = ['long_value_pairs', 'object_value_pairs', 'value_pairs', 'near_pairs', 'graph_cases', 'moved_tasks_checked', 'unmoved_tasks_checked', 'object_arg_mutations', 'rewirings',
             'locations_in_injectivity_check']
 ASSUMPTIONS = ['pairs that Python considers equal (1 == 1.0 == True, -0.0 == 0.0) and NaN are not used',
                'known finding (open): strings are quoted without escaping in the key text, so values whose frozen 1.4.0 texts coincide and that contain a single '
@@ -191,6 +191,21 @@ def run_value_pairs(rng, n, res: CaseResult, witness=False):
                 pairs.append(({'k': [base, {'deep': base}]}, {'k': [base, {'deep': base[:-1] + [-1]}]}, None))
                 pairs.append(({'class': 'tc_verif.lab.runtime.LabObj', 'kwargs': {'a': base}}, {'class': 'tc_verif.lab.runtime.LabObj', 'kwargs': {'a': base[:-1] + [0.5]}}, None))
                 res.count('long_value_pairs', 4)
+            if rng.random() < 0.1:
+                # parameter objects: every constructor argument that is not declared ignorable distinguishes; a subclass that adds constructor
+                # arguments next to an instance of its parent class (the parent's representation is computed first)
+                O, OS = 'tc_verif.lab.runtime.LabObj', 'tc_verif.lab.runtime.LabObjSub'
+                x = gen_leaf(rng)
+                l1, l2 = rng.sample([10, 11, 12, 'z', None, [1]], 2)
+                parent = {'class': O, 'kwargs': {'a': x}}
+                s1, s2 = {'class': OS, 'kwargs': {'a': x, 'limit': l1}}, {'class': OS, 'kwargs': {'a': x, 'limit': l2}}
+                pairs.append(([parent, s1], [parent, s2], 'obj'))
+                pairs.append(({'m': [parent, {'deep': [s1]}]}, {'m': [parent, {'deep': [s2]}]}, 'obj'))
+                pairs.append((s1, s2, 'obj'))
+                pairs.append((parent, {'class': OS, 'kwargs': {'a': x}}, 'obj'))
+                pairs.append(({'class': O, 'kwargs': {'a': x, 'b': 3}}, {'class': O, 'kwargs': {'a': x, 'b': 4}}, 'obj'))
+                pairs.append(({'class': OS, 'kwargs': {'a': x, 'b': 'z', 'limit': l1}}, {'class': OS, 'kwargs': {'a': x, 'b': 4, 'limit': l1}}, 'obj'))
+                res.count('object_value_pairs', 6)
         for a, b, mode in pairs[:n + 4]:
             if mode == 'two':
                 k1, k2 = key_of(a[0], tmp, other=a[1]), key_of(b[0], tmp, other=b[1])
@@ -199,7 +214,7 @@ def run_value_pairs(rng, n, res: CaseResult, witness=False):
                     res.violate(f'parameters p={a[0]!r} and p={b[0]!r}, q={b[1]!r} get the same storage key {k1}', mech='unescaped-quote-collision',
                                 witness={'a': a, 'b': b})
                 continue
-            ne = py_unequal(a, b)
+            ne = True if mode == 'obj' else py_unequal(a, b)
             if ne is not True:
                 res.count('equal_or_excluded_pairs')
                 continue
@@ -235,10 +250,15 @@ def mutate_deep(rng, v):
         return v[:i] + [mutate_deep(rng, v[i])] + v[i + 1:]
     if isinstance(v, dict) and 'class' in v:
         kw = dict(v.get('kwargs', {}))
-        k = rng.choice([k for k in kw if k != 'verbose'] or ['a'])
-        kw[k] = mutate_deep(rng, kw.get(k, 0))
+        keys = [k for k in kw if k != 'verbose'] or ['a']
+        if v['class'].endswith('LabObjSub'):
+            keys += ['limit', 'limit']
+        k = rng.choice(keys)
+        kw[k] = mutate_deep(rng, kw.get(k, 10 if k == 'limit' else 0))
         if k == 'b' and kw[k] == 3:
             kw[k] = 4
+        if k == 'limit' and kw[k] == v.get('kwargs', {}).get('limit', 10):
+            kw[k] = 11 if kw[k] != 11 else 12
         return {**v, 'kwargs': kw}
     if isinstance(v, dict) and v and rng.random() < 0.6:
         k = rng.choice(list(v))
